@@ -252,6 +252,17 @@ def crop_model_case(ck, c):
     got = [(sg.start, sg.end) for sg in cr]
     want = [(segs[e['k']].point(fr(e['a'])), segs[e['k']].point(fr(e['b']))) for e in exp]
     if len(got) != len(want) or any(not (abs(g[0] - w[0]) <= 1e-9 * tot and abs(g[1] - w[1]) <= 1e-9 * tot) for g, w in zip(got, want)):
+        # other pieces can trace the same crop: the clauses of the property decide (start, end, consecutive pieces joined or separated by a jump of the input, length,
+        # points along the way - on a polyline T is the arc-length fraction); only the piece list of Crop.tla is implementation-shaped
+        frac = (T1 - T0) if T0 < T1 else (1 - T0 + T1)
+        jumps = [(x.end, y.start) for x, y in zip(p, list(p)[1:]) if x.end != y.start]
+        sem = abs(cr.length() - frac * tot) <= 1e-9 * tot and abs(cr.start - want[0][0]) <= 1e-9 * tot and abs(cr.end - want[-1][1]) <= 1e-9 * tot
+        sem = sem and all(abs(a_.end - b_.start) <= 1e-9 * tot or any(abs(a_.end - e_) <= 1e-9 * tot and abs(b_.start - s_) <= 1e-9 * tot for e_, s_ in jumps) for a_, b_ in zip(cr, list(cr)[1:]))
+        if sem and not jumps:
+            sem = all(abs(cr.point(u) - p.point((T0 + u * frac) % 1.0 if (T0 + u * frac) != 1.0 else 1.0)) <= 1e-6 * tot for u in (0.25, 0.5, 0.75))
+        if sem:
+            ck.drift('Path.cropped/pieces-differ-from-Crop.tla', 'segment lengths %s, cropped(%d/%d, %d/%d): other pieces than the model, same crop: %s' % (lens, c['T0'], D, c['T1'], D, got))
+            return
         key = 'wrap-around-ending-at-T1=0' if c['T1'] == 0 else 'pieces-differ-from-Crop.tla'
         bad(key, '%d pieces %s' % (len(got), [(str(a_), str(b_)) for a_, b_ in got][:6]), [(str(a_), str(b_)) for a_, b_ in got])
 
